@@ -75,6 +75,14 @@ func run(c *mon.Ctx) {
 		pingPong(c, 1, rounds, false)
 		pingPong(c, 2, rounds/4, false)
 		c.Set("pingpong_wall_s", time.Since(t).Seconds())
+		// the race for the LAST free id in the normal build (tightest timing): every sender must return
+		t = time.Now()
+		lr := int(scaled(int64(c.Pick(20000, 200000))))
+		lastIDRace(c, 1, 8, lr, false)
+		lastIDRace(c, 2, 4, lr/4, false)
+		lastIDRace(c, 4, 2, lr/4, false)
+		lastIDRace(c, 3, 3, lr/4, false)
+		c.Set("last_id_race_wall_s", time.Since(t).Seconds())
 	}
 	if only == "" || only == "seq" {
 		t := time.Now()
@@ -126,6 +134,23 @@ func runSeq(c *mon.Ctx) {
 		}
 	}
 	sample = scaled(sample)
+	// the boundary sizes run beside the enumeration (two of them are ~10^5 sends each on one goroutine)
+	tB := time.Now()
+	bdone := make(chan bool, 1)
+	go func() {
+		ok := d.boundary()
+		c.Set("seq_boundary_wall_s", time.Since(tB).Seconds())
+		bdone <- ok
+	}()
+	boundaryJoined := false
+	joinBoundary := func() bool {
+		if boundaryJoined {
+			return true
+		}
+		boundaryJoined = true
+		return <-bdone
+	}
+	defer joinBoundary()
 	tEnum := time.Now()
 	for dd := 0; dd <= maxDepth; dd++ {
 		for n := 1; n <= 3; n++ {
@@ -158,6 +183,9 @@ func runSeq(c *mon.Ctx) {
 	np = int(scaled(int64(np)))
 	if s := os.Getenv("C09_WEIGHTS"); s != "" {
 		fmt.Sscan(s, &prngWeights[0], &prngWeights[1], &prngWeights[2], &prngWeights[3], &prngWeights[4], &prngWeights[5])
+	}
+	if !joinBoundary() { // the PRNG part needs to know which sizes cannot be constructed
+		return
 	}
 	c.Count("seq_prng_histories", int64(np))
 	tPrng := time.Now()
@@ -343,12 +371,29 @@ func replay(c *mon.Ctx) {
 			p, res := runConcHistory(det.Seed, det.Index)
 			concFold(c, det.Index, p, res)
 		}
+	case "boundary":
+		d := newSeqDriver(c)
+		defer d.wd.close()
+		d.boundary()
+		d.publish()
+	case "lastid":
+		var det lastIDDetail
+		if err := c.ReplayDetail(&det); err != nil {
+			c.Fatal("replay: %v", err)
+		}
+		lastIDRace(c, det.N, det.K, det.Rounds, false)
 	case "pingpong":
 		var det pingPongDetail
 		if err := c.ReplayDetail(&det); err != nil {
 			c.Fatal("replay: %v", err)
 		}
 		pingPong(c, det.N, det.Rounds, false)
+	case "sock-timeout":
+		var det sockDetail
+		if err := c.ReplayDetail(&det); err != nil {
+			c.Fatal("replay: %v", err)
+		}
+		runSockTimeout(c, det.Cfg.Version, det.Cfg.N, det.Cfg.PerSender)
 	case "sock":
 		var det sockDetail
 		if err := c.ReplayDetail(&det); err != nil {
